@@ -1,7 +1,7 @@
 (* ProcStatusProofs.v — proofs about model/ProcStatus.v (C11, PS-inv of DESIGN §4).
    The statements below are the obligations; see props/C11.v for the property-level theorems. *)
 From Sup Require Import ProcStatus GenProc.
-From Coq Require Import Lia.
+From Coq Require Import Lia Permutation.
 
 (* ---------- the reflected supervisor tuples mean what the property text says ---------- *)
 Lemma is_running_spec : forall s, is_running s = is_running_like s.
@@ -10,4 +10,1205 @@ Proof. destruct s; vm_compute; reflexivity. Qed.
 Lemma is_stopped_spec : forall s, is_stopped s = is_stopped_like s.
 Proof. destruct s; vm_compute; reflexivity. Qed.
 
-(* TODO(proof agent): everything below *)
+(* ====================================================================== *)
+(* 1. running_state = most_advanced                                        *)
+(* ====================================================================== *)
+
+(* Re-checked against the generated table: the search order of running_state. *)
+Lemma running_order :
+  gen_running_states ++ [pcode STOPPING] = [pcode RUNNING; pcode BACKOFF; pcode STARTING; pcode STOPPING].
+Proof. vm_compute. reflexivity. Qed.
+
+Lemma pcode_eqb : forall a b, Z.eqb (pcode a) (pcode b) = pstate_eqb b a.
+Proof. destruct a, b; vm_compute; reflexivity. Qed.
+
+Lemma pstate_of_pcode : forall s, pstate_of_code (pcode s) = Some s.
+Proof. destruct s; vm_compute; reflexivity. Qed.
+
+Lemma pstate_eqb_eq : forall a b, pstate_eqb a b = true <-> a = b.
+Proof. destruct a, b; simpl; split; intros H; try reflexivity; try discriminate. Qed.
+
+Lemma existsb_pcode : forall x states,
+  existsb (fun s => Z.eqb (pcode s) (pcode x)) states = existsb (pstate_eqb x) states.
+Proof.
+  intros x states. induction states as [|s r IH]; simpl.
+  - reflexivity.
+  - rewrite pcode_eqb, IH. reflexivity.
+Qed.
+
+Lemma running_state_spec : forall states, running_state states = most_advanced states.
+Proof.
+  intros states. unfold running_state, most_advanced.
+  rewrite running_order. unfold find.
+  rewrite !existsb_pcode.
+  destruct (existsb (pstate_eqb RUNNING) states); [rewrite pstate_of_pcode; reflexivity|].
+  destruct (existsb (pstate_eqb BACKOFF) states); [rewrite pstate_of_pcode; reflexivity|].
+  destruct (existsb (pstate_eqb STARTING) states); [rewrite pstate_of_pcode; reflexivity|].
+  destruct (existsb (pstate_eqb STOPPING) states); [rewrite pstate_of_pcode; reflexivity|].
+  reflexivity.
+Qed.
+
+Lemma existsb_pstate_In : forall x l, existsb (pstate_eqb x) l = true <-> In x l.
+Proof.
+  intros x l. rewrite existsb_exists. split.
+  - intros [y [Hy E]]. apply pstate_eqb_eq in E. subst. exact Hy.
+  - intros H. exists x. split; [exact H|]. apply pstate_eqb_eq. reflexivity.
+Qed.
+
+Lemma existsb_pstate_ext : forall x l1 l2, (forall s, In s l1 <-> In s l2) ->
+  existsb (pstate_eqb x) l1 = existsb (pstate_eqb x) l2.
+Proof.
+  intros x l1 l2 H.
+  destruct (existsb (pstate_eqb x) l1) eqn:E1; destruct (existsb (pstate_eqb x) l2) eqn:E2; try reflexivity.
+  - apply existsb_pstate_In in E1. apply H in E1. apply existsb_pstate_In in E1. congruence.
+  - apply existsb_pstate_In in E2. apply H in E2. apply existsb_pstate_In in E2. congruence.
+Qed.
+
+Lemma most_advanced_ext : forall l1 l2, (forall s, In s l1 <-> In s l2) -> most_advanced l1 = most_advanced l2.
+Proof.
+  intros l1 l2 H. unfold most_advanced.
+  rewrite (existsb_pstate_ext RUNNING l1 l2 H), (existsb_pstate_ext BACKOFF l1 l2 H),
+          (existsb_pstate_ext STARTING l1 l2 H), (existsb_pstate_ext STOPPING l1 l2 H).
+  reflexivity.
+Qed.
+
+Lemma most_advanced_not_stopped : forall s l,
+  Forall (fun x => is_running_like x = true \/ x = STOPPING) (s :: l) ->
+  is_stopped (most_advanced (s :: l)) = false.
+Proof.
+  intros s l H. inversion H as [|x l' Hs Hl]; subst. clear H Hl.
+  unfold most_advanced.
+  destruct (existsb (pstate_eqb RUNNING) (s :: l)) eqn:E1; [vm_compute; reflexivity|].
+  destruct (existsb (pstate_eqb BACKOFF) (s :: l)) eqn:E2; [vm_compute; reflexivity|].
+  destruct (existsb (pstate_eqb STARTING) (s :: l)) eqn:E3; [vm_compute; reflexivity|].
+  destruct (existsb (pstate_eqb STOPPING) (s :: l)) eqn:E4; [vm_compute; reflexivity|].
+  exfalso. simpl in E1, E2, E3, E4.
+  destruct Hs as [Hs|Hs]; [destruct s; simpl in *; discriminate | subst s; simpl in *; discriminate].
+Qed.
+
+(* ====================================================================== *)
+(* association-list lemmas                                                  *)
+(* ====================================================================== *)
+Section AlistLemmas.
+Context {V : Type}.
+
+Lemma aget_aset_same (k : Z) (v : V) l : aget k (aset k v l) = Some v.
+Proof.
+  induction l as [|[k' v'] r IH]; simpl.
+  - rewrite Z.eqb_refl. reflexivity.
+  - destruct (Z.eqb k k') eqn:E; simpl; rewrite E; auto.
+Qed.
+
+Lemma aget_aset_other (k j : Z) (v : V) l : j <> k -> aget j (aset k v l) = aget j l.
+Proof.
+  intros N. induction l as [|[k' v'] r IH]; simpl.
+  - destruct (Z.eqb_spec j k); [contradiction|reflexivity].
+  - destruct (Z.eqb_spec k k') as [E|E]; simpl.
+    + subst k'. destruct (Z.eqb_spec j k); [contradiction|reflexivity].
+    + destruct (Z.eqb j k'); auto.
+Qed.
+
+Lemma aset_not_nil (k : Z) (v : V) l : aset k v l <> [].
+Proof. destruct l as [|[k' v'] r]; simpl; [discriminate|]. destruct (Z.eqb k k'); discriminate. Qed.
+
+Lemma aset_aget_id (k : Z) (v : V) l : aget k l = Some v -> aset k v l = l.
+Proof.
+  induction l as [|[k' v'] r IH]; simpl; intros H.
+  - discriminate.
+  - destruct (Z.eqb k k') eqn:E.
+    + inversion H; subst. reflexivity.
+    + rewrite IH; auto.
+Qed.
+
+Lemma In_akeys_aset (k j : Z) (v : V) l : In j (akeys (aset k v l)) <-> j = k \/ In j (akeys l).
+Proof.
+  induction l as [|[k' v'] r IH]; simpl.
+  - intuition.
+  - destruct (Z.eqb_spec k k') as [E|E]; simpl.
+    + subst. intuition.
+    + rewrite IH. intuition.
+Qed.
+
+Lemma NoDup_akeys_aset (k : Z) (v : V) l : NoDup (akeys l) -> NoDup (akeys (aset k v l)).
+Proof.
+  induction l as [|[k' v'] r IH]; simpl; intros H.
+  - constructor; [intros []|constructor].
+  - inversion H as [|x l' Hn Hr]; subst.
+    destruct (Z.eqb_spec k k') as [E|E]; simpl.
+    + constructor; assumption.
+    + constructor; [|apply IH; assumption].
+      intros HI. apply In_akeys_aset in HI. destruct HI as [HI|HI]; [congruence|contradiction].
+Qed.
+
+Lemma aget_none_iff (k : Z) (l : alist V) : aget k l = None <-> ~ In k (akeys l).
+Proof.
+  induction l as [|[k' v'] r IH]; simpl.
+  - tauto.
+  - destruct (Z.eqb_spec k k') as [E|E].
+    + split; [discriminate|]. intros H. exfalso. apply H. left. congruence.
+    + rewrite IH. split; intros H; [intros [H1|H1]; [congruence|tauto] | tauto].
+Qed.
+
+Lemma aget_In (k : Z) (v : V) l : aget k l = Some v -> In (k, v) l.
+Proof.
+  induction l as [|[k' v'] r IH]; simpl; intros H.
+  - discriminate.
+  - destruct (Z.eqb_spec k k') as [E|E].
+    + inversion H; subst. left. reflexivity.
+    + right. apply IH. exact H.
+Qed.
+
+Lemma In_aget (k : Z) (v : V) l : NoDup (akeys l) -> In (k, v) l -> aget k l = Some v.
+Proof.
+  induction l as [|[k' v'] r IH]; simpl; intros Hn H.
+  - contradiction.
+  - inversion Hn as [|x l' Hk Hr]; subst.
+    destruct H as [H|H].
+    + inversion H; subst. rewrite Z.eqb_refl. reflexivity.
+    + destruct (Z.eqb_spec k k') as [E|E].
+      * exfalso. apply Hk. subst k'. unfold akeys. apply in_map_iff. exists (k, v). split; auto.
+      * apply IH; assumption.
+Qed.
+
+Lemma In_akeys_adel (k j : Z) (l : alist V) : In j (akeys (adel k l)) -> In j (akeys l).
+Proof.
+  induction l as [|[k' v'] r IH]; simpl; intros H.
+  - contradiction.
+  - destruct (Z.eqb k k'); simpl in *; [right; exact H|]. destruct H as [H|H]; [left; exact H|right; apply IH; exact H].
+Qed.
+
+Lemma NoDup_akeys_adel (k : Z) (l : alist V) : NoDup (akeys l) -> NoDup (akeys (adel k l)).
+Proof.
+  induction l as [|[k' v'] r IH]; simpl; intros H.
+  - constructor.
+  - inversion H as [|x l' Hn Hr]; subst.
+    destruct (Z.eqb k k'); simpl; [assumption|].
+    constructor; [|apply IH; assumption].
+    intros HI. apply Hn. eapply In_akeys_adel. exact HI.
+Qed.
+
+Lemma aget_adel (k j : Z) (l : alist V) : NoDup (akeys l) ->
+  aget j (adel k l) = if Z.eqb j k then None else aget j l.
+Proof.
+  induction l as [|[k' v'] r IH]; simpl; intros H.
+  - destruct (Z.eqb j k); reflexivity.
+  - inversion H as [|x l' Hn Hr]; subst.
+    destruct (Z.eqb_spec k k') as [E|E].
+    + subst k'. destruct (Z.eqb_spec j k) as [E2|E2]; [|reflexivity].
+      subst j. apply aget_none_iff. exact Hn.
+    + simpl. destruct (Z.eqb_spec j k') as [E2|E2].
+      * destruct (Z.eqb_spec j k); [congruence|reflexivity].
+      * apply IH. exact Hr.
+Qed.
+
+Lemma amem_aget (k : Z) (l : alist V) : amem k l = true <-> exists v, aget k l = Some v.
+Proof.
+  unfold amem. destruct (aget k l) as [v|]; split; intros H; try reflexivity; try discriminate.
+  - exists v. reflexivity.
+  - destruct H as [v H]. discriminate.
+Qed.
+
+Lemma Forall_aset (Q : V -> Prop) (k : Z) (v : V) l :
+  Forall (fun kv => Q (snd kv)) l -> Q v -> Forall (fun kv => Q (snd kv)) (aset k v l).
+Proof.
+  intros H Hv. induction H as [|[k' v'] r Hx Hr IH]; simpl.
+  - constructor; [exact Hv|constructor].
+  - destruct (Z.eqb k k'); constructor; auto.
+Qed.
+
+Lemma Forall_adel (Q : Z * V -> Prop) (k : Z) l : Forall Q l -> Forall Q (adel k l).
+Proof.
+  intros H. induction H as [|[k' v'] r Hx Hr IH]; simpl.
+  - constructor.
+  - destruct (Z.eqb k k'); [assumption|constructor; assumption].
+Qed.
+
+Lemma NoDup_akeys_filter (f : Z * V -> bool) (l : alist V) : NoDup (akeys l) -> NoDup (akeys (filter f l)).
+Proof.
+  induction l as [|a r IH]; simpl; intros H.
+  - constructor.
+  - inversion H as [|x l' Hn Hr]; subst.
+    destruct (f a); simpl; [|apply IH; assumption].
+    constructor; [|apply IH; assumption].
+    intros HI. apply Hn. unfold akeys in *. apply in_map_iff in HI. destruct HI as [y [E HI]].
+    apply in_map_iff. exists y. split; [exact E|]. apply filter_In in HI. tauto.
+Qed.
+
+End AlistLemmas.
+
+(* ---------- key-preserving pointwise relation between two association lists ---------- *)
+Section Arel.
+Context {A B : Type} (Q : A -> B -> Prop).
+
+Definition arel (l1 : alist A) (l2 : alist B) : Prop :=
+  Forall2 (fun a b => fst a = fst b /\ Q (snd a) (snd b)) l1 l2.
+
+Lemma arel_aset k v1 v2 l1 l2 : arel l1 l2 -> Q v1 v2 -> arel (aset k v1 l1) (aset k v2 l2).
+Proof.
+  intros H Hv. induction H as [|[k1 a] [k2 b] r1 r2 [Hk Hq] Hr IH]; simpl in *.
+  - constructor; [split; auto|constructor].
+  - subst k2. destruct (Z.eqb k k1); constructor; simpl; auto.
+Qed.
+
+Lemma arel_adel k l1 l2 : arel l1 l2 -> arel (adel k l1) (adel k l2).
+Proof.
+  intros H. induction H as [|[k1 a] [k2 b] r1 r2 [Hk Hq] Hr IH]; simpl in *.
+  - constructor.
+  - subst k2. destruct (Z.eqb k k1); [exact Hr|constructor; simpl; auto].
+Qed.
+
+Lemma arel_aget k l1 l2 : arel l1 l2 ->
+  match aget k l1, aget k l2 with
+  | Some a, Some b => Q a b
+  | None, None => True
+  | _, _ => False
+  end.
+Proof.
+  intros H. induction H as [|[k1 a] [k2 b] r1 r2 [Hk Hq] Hr IH]; simpl in *.
+  - exact I.
+  - subst k2. destruct (Z.eqb k k1); [exact Hq|exact IH].
+Qed.
+
+Lemma arel_aget_r k l1 l2 b : arel l1 l2 -> aget k l2 = Some b -> exists a, aget k l1 = Some a /\ Q a b.
+Proof.
+  intros H E. pose proof (arel_aget k l1 l2 H) as G. rewrite E in G.
+  destruct (aget k l1) as [a|]; [|contradiction]. exists a. split; auto.
+Qed.
+
+Lemma arel_aget_l k l1 l2 a : arel l1 l2 -> aget k l1 = Some a -> exists b, aget k l2 = Some b /\ Q a b.
+Proof.
+  intros H E. pose proof (arel_aget k l1 l2 H) as G. rewrite E in G.
+  destruct (aget k l2) as [b|]; [|contradiction]. exists b. split; auto.
+Qed.
+
+Lemma arel_akeys l1 l2 : arel l1 l2 -> akeys l1 = akeys l2.
+Proof.
+  intros H. induction H as [|[k1 a] [k2 b] r1 r2 [Hk Hq] Hr IH]; simpl in *; [reflexivity|].
+  subst k2. rewrite IH. reflexivity.
+Qed.
+
+Lemma arel_avals l1 l2 : arel l1 l2 -> Forall2 Q (avals l1) (avals l2).
+Proof.
+  intros H. induction H as [|[k1 a] [k2 b] r1 r2 [Hk Hq] Hr IH]; simpl in *; constructor; auto.
+Qed.
+
+Lemma arel_filter (f : Z * A -> bool) (g : Z * B -> bool) l1 l2 :
+  (forall x y, fst x = fst y -> Q (snd x) (snd y) -> f x = g y) ->
+  arel l1 l2 -> arel (filter f l1) (filter g l2).
+Proof.
+  intros Hfg H. induction H as [|x y r1 r2 [Hk Hq] Hr IH]; simpl.
+  - constructor.
+  - rewrite (Hfg x y Hk Hq). destruct (g y); [constructor; auto|exact IH].
+Qed.
+
+Lemma Forall2_existsb (f : A -> bool) (g : B -> bool) l1 l2 :
+  (forall a b, Q a b -> f a = g b) -> Forall2 Q l1 l2 -> existsb f l1 = existsb g l2.
+Proof.
+  intros Hfg H. induction H as [|a b r1 r2 Hq Hr IH]; simpl; [reflexivity|].
+  rewrite (Hfg a b Hq), IH. reflexivity.
+Qed.
+
+Lemma max_by_rel (ka : A -> Z) (kb : B -> Z) :
+  (forall a b, Q a b -> ka a = kb b) ->
+  forall l1 l2, Forall2 Q l1 l2 -> forall c1 c2, Q c1 c2 -> Q (max_by ka c1 l1) (max_by kb c2 l2).
+Proof.
+  intros Hk l1 l2 H. induction H as [|a b r1 r2 Hq Hr IH]; simpl; intros c1 c2 Hc.
+  - exact Hc.
+  - rewrite (Hk c1 c2 Hc), (Hk a b Hq). destruct (Z.ltb (kb c2) (kb b)); apply IH; assumption.
+Qed.
+
+Lemma py_max_rel (ka : A -> Z) (kb : B -> Z) l1 l2 :
+  (forall a b, Q a b -> ka a = kb b) -> Forall2 Q l1 l2 ->
+  match py_max ka l1, py_max kb l2 with
+  | Some a, Some b => Q a b
+  | None, None => True
+  | _, _ => False
+  end.
+Proof.
+  intros Hk H. destruct H as [|a b r1 r2 Hq Hr]; simpl; [exact I|].
+  apply max_by_rel; assumption.
+Qed.
+
+End Arel.
+
+(* ====================================================================== *)
+(* integer-set lemmas                                                       *)
+(* ====================================================================== *)
+Lemma zmem_In : forall k l, zmem k l = true <-> In k l.
+Proof.
+  intros k l. unfold zmem. rewrite existsb_exists. split.
+  - intros [x [Hx E]]. apply Z.eqb_eq in E. subst. exact Hx.
+  - intros H. exists k. split; [exact H|apply Z.eqb_refl].
+Qed.
+
+Lemma zmem_false : forall k l, zmem k l = false <-> ~ In k l.
+Proof.
+  intros k l. rewrite <- zmem_In. destruct (zmem k l); split; intros H; try reflexivity; try discriminate.
+  - exfalso. apply H. reflexivity.
+Qed.
+
+Lemma In_zadd : forall k j l, In j (zadd k l) <-> j = k \/ In j l.
+Proof.
+  intros k j l. unfold zadd. destruct (zmem k l) eqn:E.
+  - apply zmem_In in E. split; [auto|]. intros [H|H]; [subst; exact E|exact H].
+  - rewrite in_app_iff. simpl. intuition.
+Qed.
+
+Lemma NoDup_zadd : forall k l, NoDup l -> NoDup (zadd k l).
+Proof.
+  intros k l H. unfold zadd. destruct (zmem k l) eqn:E; [exact H|].
+  apply zmem_false in E.
+  apply (Permutation_NoDup (Permutation_cons_append l k)). constructor; assumption.
+Qed.
+
+Lemma In_zdiscard : forall k j l, In j (zdiscard k l) <-> j <> k /\ In j l.
+Proof.
+  intros k j l. unfold zdiscard. rewrite filter_In.
+  destruct (Z.eqb_spec k j) as [E|E]; simpl; split; intros H.
+  - destruct H as [_ H]. discriminate.
+  - destruct H as [H _]. exfalso. apply H. congruence.
+  - split; [congruence|tauto].
+  - tauto.
+Qed.
+
+Lemma zdiscard_idem : forall k l, zdiscard k (zdiscard k l) = zdiscard k l.
+Proof.
+  intros k l. unfold zdiscard. induction l as [|x r IH]; simpl; [reflexivity|].
+  destruct (Z.eqb k x) eqn:E; simpl; [exact IH|]. rewrite E. simpl. f_equal. exact IH.
+Qed.
+
+Lemma NoDup_zdiscard : forall k l, NoDup l -> NoDup (zdiscard k l).
+Proof. intros k l H. unfold zdiscard. apply NoDup_filter. exact H. Qed.
+
+Lemma zinsert_In : forall x y l, In y (zinsert x l) <-> y = x \/ In y l.
+Proof.
+  intros x y l. induction l as [|a r IH]; simpl.
+  - intuition.
+  - destruct (Z.leb x a); simpl; [intuition|]. rewrite IH. intuition.
+Qed.
+
+Lemma zinsert_length : forall x l, length (zinsert x l) = S (length l).
+Proof.
+  intros x l. induction l as [|a r IH]; simpl; [reflexivity|].
+  destruct (Z.leb x a); simpl; [reflexivity|]. rewrite IH. reflexivity.
+Qed.
+
+Lemma zsort_In : forall y l, In y (zsort l) <-> In y l.
+Proof.
+  intros y l. induction l as [|a r IH]; simpl; [tauto|].
+  rewrite zinsert_In, IH. intuition.
+Qed.
+
+Lemma zsort_length : forall l, length (zsort l) = length l.
+Proof.
+  intros l. induction l as [|a r IH]; simpl; [reflexivity|].
+  rewrite zinsert_length, IH. reflexivity.
+Qed.
+
+Lemma NoDup_same_length : forall (l1 l2 : list Z),
+  NoDup l1 -> NoDup l2 -> (forall x, In x l1 <-> In x l2) -> length l1 = length l2.
+Proof.
+  intros l1 l2 H1 H2 H. apply Permutation_length. apply NoDup_Permutation; assumption.
+Qed.
+
+(* ====================================================================== *)
+(* 2. the refinement relation                                               *)
+(* ====================================================================== *)
+Definition irel (a : info) (b : sinfo) : Prop :=
+  i_state a = s_state b /\ i_expected a = s_expected b /\ i_local_mtime a = s_mtime b
+  /\ i_event_time a = s_evt b /\ i_now_mono a = s_nowm b.
+
+(* instance i is 'listed' in the specification *)
+Definition listed_in (i : Z) (sinfos : alist sinfo) : Prop :=
+  exists si, aget i sinfos = Some si /\ s_listed si = true.
+
+(* (f): the listed bit is coherent with the last reported state *)
+Definition listed_ok (si : sinfo) : Prop :=
+  (s_listed si = true -> is_running_like (s_state si) = true \/ s_state si = STOPPING)
+  /\ (is_running_like (s_state si) = true -> s_listed si = true).
+
+(* (a) (b) (c) (f) *)
+Record Rcore (infos : alist info) (run : list Z) (sinfos : alist sinfo) : Prop := mkRcore {
+  rc_infos : arel irel infos sinfos;
+  rc_keys : NoDup (akeys infos);
+  rc_run_nodup : NoDup run;
+  rc_run : forall i, zmem i run = true <-> listed_in i sinfos;
+  rc_listed : Forall (fun kv => listed_ok (snd kv)) sinfos
+}.
+
+(* (e) *)
+Definition state_agrees (p : proc) (sp : spec) : Prop :=
+  forall s oe, spec_state sp = Some (s, oe) ->
+    p_state p = s /\ (forall e, oe = Some e -> p_expected_exit p = e).
+
+Definition R (p : proc) (sp : spec) : Prop :=
+  Rcore (p_infos p) (p_running p) (sp_infos sp)
+  /\ p_forced p = sp_forced sp
+  /\ state_agrees p sp.
+
+Lemma R_init : R proc_init spec_init.
+Proof.
+  split; [|split].
+  - constructor; simpl.
+    + constructor.
+    + constructor.
+    + constructor.
+    + intros i. split; [discriminate|]. intros [si [H _]]. discriminate.
+    + constructor.
+  - reflexivity.
+  - intros s oe H. discriminate.
+Qed.
+
+(* ---------- listed instances of the spec ---------- *)
+Definition listedF (sinfos : alist sinfo) : alist sinfo := filter (fun kv => s_listed (snd kv)) sinfos.
+
+Lemma spec_running_eq : forall sp, spec_running sp = akeys (listedF (sp_infos sp)).
+Proof. reflexivity. Qed.
+
+Lemma spec_state_eq : forall sp, spec_state sp =
+  match listedF (sp_infos sp) with
+  | _ :: _ :: _ => Some (most_advanced (map (fun kv => s_state (snd kv)) (listedF (sp_infos sp))), None)
+  | [kv] => Some (s_state (snd kv), Some true)
+  | [] =>
+      if existsb (fun si => pstate_eqb (s_state si) STOPPING) (avals (sp_infos sp)) then Some (STOPPING, Some true)
+      else match py_max s_mtime (avals (sp_infos sp)) with
+           | Some si => Some (s_state si, Some (s_expected si))
+           | None => None
+           end
+  end.
+Proof. reflexivity. Qed.
+
+Lemma In_listedF : forall i si sinfos, NoDup (akeys sinfos) ->
+  (In (i, si) (listedF sinfos) <-> aget i sinfos = Some si /\ s_listed si = true).
+Proof.
+  intros i si sinfos Hn. unfold listedF. rewrite filter_In. simpl. split; intros [H1 H2]; split; auto.
+  - apply In_aget; assumption.
+  - apply aget_In; assumption.
+Qed.
+
+Lemma In_spec_running : forall i sinfos, NoDup (akeys sinfos) ->
+  (In i (akeys (listedF sinfos)) <-> listed_in i sinfos).
+Proof.
+  intros i sinfos Hn. unfold akeys, listed_in. rewrite in_map_iff. split.
+  - intros [[k si] [E H]]. simpl in E. subst k. exists si. apply In_listedF; assumption.
+  - intros [si H]. exists (i, si). split; [reflexivity|]. apply In_listedF; assumption.
+Qed.
+
+Lemma Rcore_skeys : forall infos run sinfos, Rcore infos run sinfos -> NoDup (akeys sinfos).
+Proof. intros infos run sinfos H. rewrite <- (arel_akeys irel _ _ (rc_infos _ _ _ H)). apply (rc_keys _ _ _ H). Qed.
+
+Lemma Rcore_run_In : forall infos run sinfos, Rcore infos run sinfos ->
+  forall i, In i run <-> In i (akeys (listedF sinfos)).
+Proof.
+  intros infos run sinfos H i. rewrite <- zmem_In, (rc_run _ _ _ H).
+  symmetry. apply In_spec_running. eapply Rcore_skeys; eassumption.
+Qed.
+
+Lemma Rcore_length : forall infos run sinfos, Rcore infos run sinfos ->
+  length run = length (listedF sinfos).
+Proof.
+  intros infos run sinfos H.
+  rewrite <- (map_length fst (listedF sinfos)). apply NoDup_same_length.
+  - apply (rc_run_nodup _ _ _ H).
+  - apply NoDup_akeys_filter. eapply Rcore_skeys; eassumption.
+  - apply (Rcore_run_In _ _ _ H).
+Qed.
+
+Lemma listedF_ok : forall infos run sinfos kv, Rcore infos run sinfos -> In kv (listedF sinfos) ->
+  is_running_like (s_state (snd kv)) = true \/ s_state (snd kv) = STOPPING.
+Proof.
+  intros infos run sinfos kv H HI. unfold listedF in HI. apply filter_In in HI. destruct HI as [HI HL].
+  pose proof (rc_listed _ _ _ H) as HF. rewrite Forall_forall in HF. apply (HF kv HI). exact HL.
+Qed.
+
+(* ---------- the status synthesis of update_status as a function of (infos, running) ---------- *)
+Definition synth (infos : alist info) (run : list Z) (fo : option pstate) (ee : bool) : result proc :=
+  match run with
+  | _ :: _ :: _ =>
+      bind (running_infos infos run) (fun infs =>
+        Ok (mkProc infos run (running_state (map i_state infs)) fo ee))
+  | [i] =>
+      match aget i infos with
+      | None => Crash KeyError
+      | Some inf => Ok (mkProc infos run (i_state inf) fo true)
+      end
+  | [] =>
+      if existsb (fun inf => pstate_eqb (i_state inf) STOPPING) (avals infos)
+      then Ok (mkProc infos run STOPPING fo true)
+      else match py_max i_local_mtime (avals infos) with
+           | None => Crash ValueError
+           | Some inf => Ok (mkProc infos run (i_state inf) fo (i_expected inf))
+           end
+  end.
+
+Definition new_run (run : list Z) (cur : pstate) (ident : Z) (st : pstate) : list Z :=
+  if is_stopped st then zdiscard ident run
+  else if is_running st then (if is_stopped cur then [ident] else zadd ident run)
+  else run.
+
+Lemma update_status_synth : forall p i st,
+  update_status p i st = synth (p_infos p) (new_run (p_running p) (p_state p) i st) (p_forced p) (p_expected_exit p).
+Proof. reflexivity. Qed.
+
+Lemma synth_frame : forall infos run fo ee p',
+  synth infos run fo ee = Ok p' -> p_infos p' = infos /\ p_running p' = run /\ p_forced p' = fo.
+Proof.
+  intros infos run fo ee p' H. unfold synth in H.
+  destruct run as [|i [|j r]].
+  - destruct (existsb _ _); [inversion H; subst; auto|].
+    destruct (py_max _ _); inversion H; subst; auto.
+  - destruct (aget i infos); inversion H; subst; auto.
+  - destruct (running_infos infos (i :: j :: r)); simpl in H; inversion H; subst; auto.
+Qed.
+
+Lemma running_infos_ok : forall infos run,
+  (forall i, In i run -> exists inf, aget i infos = Some inf) ->
+  exists infs, running_infos infos run = Ok infs
+    /\ forall inf, In inf infs <-> exists i, In i run /\ aget i infos = Some inf.
+Proof.
+  intros infos run. induction run as [|i r IH]; simpl; intros H.
+  - exists []. split; [reflexivity|]. intros inf. split; [intros []|intros [i [[] _]]].
+  - destruct (H i (or_introl eq_refl)) as [inf0 E0]. rewrite E0.
+    destruct IH as [infs [E1 HI]]; [intros j Hj; apply H; right; exact Hj|].
+    rewrite E1. simpl. exists (inf0 :: infs). split; [reflexivity|].
+    intros inf. simpl. rewrite HI. split.
+    + intros [E|[j [Hj Ej]]]; [exists i; subst; auto|exists j; auto].
+    + intros [j [[E|Hj] Ej]]; [left; subst; congruence|right; exists j; auto].
+Qed.
+
+Lemma irel_state : forall a b, irel a b -> i_state a = s_state b.
+Proof. intros a b H. apply H. Qed.
+
+Lemma synth_refines : forall infos run sinfos fo ee sfo,
+  Rcore infos run sinfos -> infos <> [] ->
+  exists p', synth infos run fo ee = Ok p' /\ p_infos p' = infos /\ p_running p' = run /\ p_forced p' = fo
+             /\ state_agrees p' (mkSpec sinfos sfo).
+Proof.
+  intros infos run sinfos fo ee sfo HR Hne.
+  pose proof (Rcore_length _ _ _ HR) as Hlen.
+  pose proof (Rcore_run_In _ _ _ HR) as Hin.
+  pose proof (Rcore_skeys _ _ _ HR) as Hsk.
+  pose proof (rc_infos _ _ _ HR) as Hrel.
+  unfold state_agrees. rewrite spec_state_eq. cbn [sp_infos].
+  destruct run as [|i [|j r]]; simpl in Hlen.
+  - (* nobody running *)
+    destruct (listedF sinfos) as [|kv F]; [|discriminate]. clear Hlen Hin.
+    unfold synth.
+    rewrite (Forall2_existsb irel (fun inf => pstate_eqb (i_state inf) STOPPING)
+               (fun si => pstate_eqb (s_state si) STOPPING) (avals infos) (avals sinfos)).
+    2:{ intros a b Hab. rewrite (irel_state a b Hab). reflexivity. }
+    2:{ apply arel_avals. exact Hrel. }
+    destruct (existsb _ (avals sinfos)).
+    + eexists. split; [reflexivity|]. simpl. do 3 (split; [reflexivity|]).
+      intros s oe H. inversion H; subst. split; [reflexivity|].
+      intros e He. inversion He. reflexivity.
+    + pose proof (py_max_rel irel i_local_mtime s_mtime (avals infos) (avals sinfos)) as Hmax.
+      destruct (py_max i_local_mtime (avals infos)) as [inf|] eqn:E1.
+      * destruct (py_max s_mtime (avals sinfos)) as [si|] eqn:E2.
+        2:{ exfalso. apply Hmax; [intros a b Hab; apply Hab|apply arel_avals; exact Hrel]. }
+        assert (Hq : irel inf si) by (apply Hmax; [intros a b Hab; apply Hab|apply arel_avals; exact Hrel]).
+        eexists. split; [reflexivity|]. simpl. do 3 (split; [reflexivity|]).
+        intros s oe H. inversion H; subst. split; [apply Hq|].
+        intros e He. inversion He; subst. apply Hq.
+      * exfalso. destruct infos as [|[k v] r]; [apply Hne; reflexivity|]. simpl in E1. discriminate.
+  - (* one running *)
+    destruct (listedF sinfos) as [|[k si] [|kv2 F]] eqn:EF; try discriminate. clear Hlen.
+    assert (k = i) as ->.
+    { assert (In k [i]) as Hk by (apply Hin; simpl; auto). destruct Hk as [Hk|[]]. congruence. }
+    assert (aget i sinfos = Some si) as Hsi.
+    { apply (In_listedF i si sinfos Hsk). rewrite EF. left. reflexivity. }
+    destruct (arel_aget_r irel i infos sinfos si Hrel Hsi) as [inf [Einf Hq]].
+    unfold synth. rewrite Einf. eexists. split; [reflexivity|]. simpl. do 3 (split; [reflexivity|]).
+    intros s oe H. inversion H; subst. split; [apply Hq|].
+    intros e He. inversion He; subst. reflexivity.
+  - (* conflict *)
+    destruct (listedF sinfos) as [|kv1 [|kv2 F]] eqn:EF; try discriminate. clear Hlen.
+    rewrite <- EF. rewrite <- EF in Hin.
+    set (run := i :: j :: r) in *.
+    assert (Hrun : forall x, In x run -> exists si, aget x sinfos = Some si /\ s_listed si = true).
+    { intros x Hx. apply Hin in Hx. apply In_spec_running in Hx; [exact Hx|exact Hsk]. }
+    destruct (running_infos_ok infos run) as [infs [Einfs Hinfs]].
+    { intros x Hx. destruct (Hrun x Hx) as [si [Hsi _]].
+      destruct (arel_aget_r irel x infos sinfos si Hrel Hsi) as [inf [Einf _]]. exists inf. exact Einf. }
+    unfold synth. fold run. change (match run with | [] => _ | [_] => _ | _ :: _ :: _ => ?X end) with X.
+    rewrite Einfs. simpl bind. eexists. split; [reflexivity|]. simpl. do 3 (split; [reflexivity|]).
+    intros s0 oe H. inversion H; subst. split; [|intros e He; discriminate].
+    + rewrite running_state_spec. apply most_advanced_ext.
+      intros s. rewrite !in_map_iff. split.
+      * intros [inf [Es Hinf]]. apply Hinfs in Hinf. destruct Hinf as [x [Hx Ex]].
+        destruct (Hrun x Hx) as [si [Hsi Hl]].
+        destruct (arel_aget_l irel x infos sinfos inf Hrel Ex) as [si' [Hsi' Hq]].
+        rewrite Hsi in Hsi'. inversion Hsi'; subst si'.
+        exists (x, si). split; [simpl; rewrite <- (irel_state _ _ Hq); exact Es|].
+        apply In_listedF; auto.
+      * intros [[x si] [Es Hkv]]. simpl in Es. apply In_listedF in Hkv; [|exact Hsk]. destruct Hkv as [Hsi Hl].
+        assert (Hx : In x run).
+        { apply Hin. apply In_spec_running; [exact Hsk|]. exists si. auto. }
+        destruct (arel_aget_r irel x infos sinfos si Hrel Hsi) as [inf [Einf Hq]].
+        exists inf. split; [rewrite (irel_state _ _ Hq); exact Es|]. apply Hinfs. exists x. auto.
+Qed.
+
+(* ---------- PS-inv: a stopped synthesized state means nobody is running ---------- *)
+Lemma ps_inv : forall p sp, R p sp -> is_stopped (p_state p) = true -> p_running p = [].
+Proof.
+  intros p sp [HR [_ Hst]] Hs.
+  pose proof (Rcore_length _ _ _ HR) as Hlen.
+  unfold state_agrees in Hst. rewrite spec_state_eq in Hst.
+  destruct (listedF (sp_infos sp)) as [|kv1 [|kv2 F]] eqn:EF.
+  - destruct (p_running p); [reflexivity|discriminate].
+  - exfalso. destruct (Hst _ _ eq_refl) as [E _].
+    assert (Hk : is_running_like (s_state (snd kv1)) = true \/ s_state (snd kv1) = STOPPING).
+    { eapply listedF_ok; [exact HR|]. rewrite EF. left. reflexivity. }
+    rewrite E, is_stopped_spec in Hs.
+    destruct Hk as [Hk|Hk]; [destruct (s_state (snd kv1)); simpl in *; discriminate|].
+    rewrite Hk in Hs. discriminate.
+  - exfalso. destruct (Hst _ _ eq_refl) as [E _].
+    rewrite E in Hs. simpl map in Hs. rewrite most_advanced_not_stopped in Hs; [discriminate|].
+    change (Forall (fun x => is_running_like x = true \/ x = STOPPING)
+                   (map (fun kv => s_state (snd kv)) (kv1 :: kv2 :: F))).
+    rewrite Forall_forall. intros x Hx. apply in_map_iff in Hx. destruct Hx as [kv [Ex Hkv]]. subst x.
+    eapply listedF_ok; [exact HR|]. rewrite EF. exact Hkv.
+Qed.
+
+Lemma R_empty_running : forall p sp, R p sp -> sp_infos sp = [] -> p_running p = [].
+Proof.
+  intros p sp [HR _] He. pose proof (Rcore_length _ _ _ HR) as Hlen. rewrite He in Hlen. simpl in Hlen.
+  destruct (p_running p); [reflexivity|discriminate].
+Qed.
+
+(* ---------- listed_in through aset / adel ---------- *)
+Lemma listed_in_aset : forall i j s' l,
+  listed_in j (aset i s' l) <-> (j = i /\ s_listed s' = true) \/ (j <> i /\ listed_in j l).
+Proof.
+  intros i j s' l. unfold listed_in. destruct (Z.eq_dec j i) as [E|E].
+  - subst j. rewrite aget_aset_same. split.
+    + intros [si [H1 H2]]. inversion H1; subst. left. auto.
+    + intros [[_ H]|[H _]]; [exists s'; auto|contradiction].
+  - rewrite (aget_aset_other i j s' l E). split.
+    + intros H. right. auto.
+    + intros [[H _]|[_ H]]; [contradiction|exact H].
+Qed.
+
+Lemma listed_in_adel : forall i j l, NoDup (akeys l) ->
+  (listed_in j (adel i l) <-> j <> i /\ listed_in j l).
+Proof.
+  intros i j l Hn. unfold listed_in. rewrite (aget_adel i j l Hn).
+  destruct (Z.eqb_spec j i) as [E|E]; split.
+  - intros [si [H _]]. discriminate.
+  - intros [H _]. contradiction.
+  - intros H. auto.
+  - intros [_ H]. exact H.
+Qed.
+
+Lemma listed_in_was : forall i (l : alist sinfo),
+  listed_in i l <-> match aget i l with Some si => s_listed si | None => false end = true.
+Proof.
+  intros i l. unfold listed_in. destruct (aget i l) as [si|]; split.
+  - intros [si' [E H]]. inversion E; subst. exact H.
+  - intros H. exists si. auto.
+  - intros [si' [E _]]. discriminate.
+  - discriminate.
+Qed.
+
+(* generic preservation of Rcore when entry i is (re)written on both sides *)
+Lemma Rcore_aset : forall infos run sinfos i inf' s' run',
+  Rcore infos run sinfos -> irel inf' s' -> listed_ok s' -> NoDup run' ->
+  (forall j, In j run' <-> (j = i /\ s_listed s' = true) \/ (j <> i /\ In j run)) ->
+  Rcore (aset i inf' infos) run' (aset i s' sinfos).
+Proof.
+  intros infos run sinfos i inf' s' run' HR Hq Hok Hnd Hrun'. constructor.
+  - apply arel_aset; [apply (rc_infos _ _ _ HR)|exact Hq].
+  - apply NoDup_akeys_aset. apply (rc_keys _ _ _ HR).
+  - exact Hnd.
+  - intros j. rewrite zmem_In, Hrun', listed_in_aset, <- (rc_run _ _ _ HR j), zmem_In. reflexivity.
+  - apply (Forall_aset listed_ok). apply (rc_listed _ _ _ HR). exact Hok.
+Qed.
+
+Lemma Rcore_adel : forall infos run sinfos i,
+  Rcore infos run sinfos -> Rcore (adel i infos) (zdiscard i run) (adel i sinfos).
+Proof.
+  intros infos run sinfos i HR. constructor.
+  - apply arel_adel. apply (rc_infos _ _ _ HR).
+  - apply NoDup_akeys_adel. apply (rc_keys _ _ _ HR).
+  - apply NoDup_zdiscard. apply (rc_run_nodup _ _ _ HR).
+  - intros j. rewrite zmem_In, In_zdiscard, listed_in_adel, <- (rc_run _ _ _ HR j), zmem_In; [reflexivity|].
+    eapply Rcore_skeys; eassumption.
+  - apply Forall_adel. apply (rc_listed _ _ _ HR).
+Qed.
+
+Lemma new_run_cases : forall run cur i st, (is_stopped cur = true -> run = []) ->
+  new_run run cur i st =
+    if is_running_like st then zadd i run else if is_stopped_like st then zdiscard i run else run.
+Proof.
+  intros run cur i st H. unfold new_run. rewrite (is_stopped_spec st), (is_running_spec st).
+  destruct st; simpl; try reflexivity;
+    (destruct (is_stopped cur) eqn:E; [rewrite (H eq_refl); reflexivity|reflexivity]).
+Qed.
+
+Lemma listed_ok_after : forall st e now was evt nowm, listed_ok (mkS st e now (listed_after was st) evt nowm).
+Proof.
+  intros st e now was evt nowm. unfold listed_ok, listed_after. simpl.
+  destruct st; simpl; split; intros H; try discriminate; auto.
+Qed.
+
+(* ---------- the common core of add_info / update_info / invalidate ---------- *)
+Lemma report_refines : forall p sp i st e nm now inf' fo',
+  R p sp ->
+  i_state inf' = st -> i_expected inf' = e -> i_local_mtime inf' = now ->
+  i_event_time inf' = nm -> i_now_mono inf' = nm ->
+  exists p',
+    update_status (mkProc (aset i inf' (p_infos p)) (p_running p) (p_state p) fo' (p_expected_exit p)) i st = Ok p'
+    /\ R p' (mkSpec (aset i (mkS st e now
+                       (listed_after (match aget i (sp_infos sp) with Some si => s_listed si | None => false end) st)
+                       nm nm) (sp_infos sp)) fo').
+Proof.
+  intros p sp i st e nm now inf' fo' HR E1 E2 E3 E4 E5.
+  pose proof (ps_inv p sp HR) as Hinv. destruct HR as [HR [Hf Hst]].
+  rewrite update_status_synth. cbn [p_infos p_running p_state p_forced p_expected_exit].
+  set (was := match aget i (sp_infos sp) with Some si => s_listed si | None => false end).
+  set (s' := mkS st e now (listed_after was st) nm nm).
+  assert (HR' : Rcore (aset i inf' (p_infos p)) (new_run (p_running p) (p_state p) i st) (aset i s' (sp_infos sp))).
+  { apply (Rcore_aset _ (p_running p)); [exact HR| | | |].
+    - unfold irel, s'. simpl. auto.
+    - apply listed_ok_after.
+    - rewrite (new_run_cases _ _ _ _ Hinv).
+      destruct (is_running_like st); [apply NoDup_zadd|destruct (is_stopped_like st); [apply NoDup_zdiscard|]];
+        apply (rc_run_nodup _ _ _ HR).
+    - intros j. rewrite (new_run_cases _ _ _ _ Hinv). unfold s', listed_after. cbn [s_listed].
+      destruct (is_running_like st).
+      + rewrite In_zadd. destruct (Z.eq_dec j i); intuition.
+      + destruct (is_stopped_like st).
+        * rewrite In_zdiscard. intuition. discriminate.
+        * destruct (Z.eq_dec j i) as [E|E].
+          -- subst j. rewrite <- zmem_In, (rc_run _ _ _ HR i), listed_in_was. fold was. intuition.
+          -- intuition.
+  }
+  destruct (synth_refines _ _ _ fo' (p_expected_exit p) fo' HR' (aset_not_nil _ _ _))
+    as [p' [Ep [Ei [Er [Ef Hag]]]]].
+  exists p'. split; [exact Ep|]. split; [|split].
+  - rewrite Ei, Er. exact HR'.
+  - rewrite Ef. reflexivity.
+  - exact Hag.
+Qed.
+
+Definition rfv (f : option pstate) (x : option pstate) : option pstate :=
+  match x with Some STOPPED => f | _ => None end.
+
+Lemma reset_set_eq : forall p infos' x,
+  reset_forced (set_infos p infos') x = mkProc infos' (p_running p) (p_state p) (rfv (p_forced p) x) (p_expected_exit p).
+Proof.
+  intros [a b c [f|] d] infos' [[]|]; reflexivity.
+Qed.
+
+Lemma add_info_refines : forall p sp i st e nm d now,
+  R p sp -> exists p', add_info p i st e nm d now = Ok p' /\ R p' (spec_step sp (AddInfo i st e nm d now)).
+Proof.
+  intros p sp i st e nm d now HR. unfold add_info. rewrite reset_set_eq.
+  destruct (report_refines p sp i st e nm now
+              (mkInfo st e nm nm now (is_crashed st e) d) (rfv (p_forced p) (Some st)) HR
+              eq_refl eq_refl eq_refl eq_refl eq_refl) as [p' [Ep HR']].
+  exists p'. split; [exact Ep|].
+  unfold spec_step, spec_report.
+  replace (if negb (pstate_eqb st STOPPED) then None else sp_forced sp) with (rfv (p_forced p) (Some st)).
+  - exact HR'.
+  - destruct HR as [_ [Hf _]]. rewrite Hf. destruct st; reflexivity.
+Qed.
+
+Lemma update_info_refines : forall p sp i st e nm now ext,
+  R p sp -> amem i (sp_infos sp) = true ->
+  exists p', update_info p i st e nm now ext = Ok p' /\ R p' (spec_report sp i st e nm now true).
+Proof.
+  intros p sp i st e nm now ext HR Hm.
+  apply amem_aget in Hm. destruct Hm as [si Hsi].
+  destruct (arel_aget_r irel i _ _ si (rc_infos _ _ _ (proj1 HR)) Hsi) as [old [Eold _]].
+  unfold update_info. rewrite Eold. rewrite reset_set_eq.
+  destruct (report_refines p sp i st e nm now
+              (mkInfo st e nm nm now
+                 (if ext then i_has_crashed old || is_crashed st e else i_has_crashed old) (i_disabled old))
+              (rfv (p_forced p) None) HR eq_refl eq_refl eq_refl eq_refl eq_refl) as [p' [Ep HR']].
+  exists p'. split; [exact Ep|exact HR'].
+Qed.
+
+Lemma spec_state_forced_irrel : forall l f1 f2, spec_state (mkSpec l f1) = spec_state (mkSpec l f2).
+Proof. reflexivity. Qed.
+
+(* state synthesis of the spec only looks at state / expected / mtime / listed *)
+Definition srel (a b : sinfo) : Prop :=
+  s_state a = s_state b /\ s_expected a = s_expected b /\ s_mtime a = s_mtime b /\ s_listed a = s_listed b.
+
+Lemma arel_map_state : forall l1 l2, arel srel l1 l2 ->
+  map (fun kv => s_state (snd kv)) l1 = map (fun kv => s_state (snd kv)) l2.
+Proof.
+  intros l1 l2 H. induction H as [|x y r1 r2 [Hk Hq] Hr IH]; simpl; [reflexivity|].
+  rewrite IH. destruct Hq as [Hq _]. rewrite Hq. reflexivity.
+Qed.
+
+Lemma spec_state_srel : forall l1 l2 f1 f2, arel srel l1 l2 -> spec_state (mkSpec l1 f1) = spec_state (mkSpec l2 f2).
+Proof.
+  intros l1 l2 f1 f2 H. rewrite !spec_state_eq. cbn [sp_infos].
+  assert (HF : arel srel (listedF l1) (listedF l2)).
+  { unfold listedF. apply arel_filter; [|exact H]. intros x y _ Hq. apply Hq. }
+  pose proof (arel_map_state _ _ HF) as Hmap.
+  destruct HF as [|x y F1 F2 [_ Hxy] HF].
+  - rewrite (Forall2_existsb srel (fun si => pstate_eqb (s_state si) STOPPING)
+               (fun si => pstate_eqb (s_state si) STOPPING) (avals l1) (avals l2)).
+    2:{ intros a b Hab. destruct Hab as [Hab _]. rewrite Hab. reflexivity. }
+    2:{ apply arel_avals. exact H. }
+    destruct (existsb _ (avals l2)); [reflexivity|].
+    pose proof (py_max_rel srel s_mtime s_mtime (avals l1) (avals l2)) as Hmax.
+    assert (Hm : match py_max s_mtime (avals l1), py_max s_mtime (avals l2) with
+                 | Some a, Some b => srel a b | None, None => True | _, _ => False end).
+    { apply Hmax; [intros a b Hab; apply Hab|apply arel_avals; exact H]. }
+    destruct (py_max s_mtime (avals l1)) as [a|]; destruct (py_max s_mtime (avals l2)) as [b|];
+      try contradiction; [|reflexivity].
+    destruct Hm as [Ha [Hb _]]. rewrite Ha, Hb. reflexivity.
+  - destruct HF as [|x2 y2 F1' F2' _ HF'].
+    + destruct Hxy as [Hxy _]. rewrite Hxy. reflexivity.
+    + rewrite Hmap. reflexivity.
+Qed.
+
+Lemma arel_srel_refl : forall l, arel srel l l.
+Proof. intros l. induction l as [|x r IH]; constructor; [unfold srel; auto|exact IH]. Qed.
+
+(* ====================================================================== *)
+(* 3. every well-formed operation refines the specification                 *)
+(* ====================================================================== *)
+Lemma step_refines : forall p sp o, R p sp -> wf_op sp o = true ->
+  exists p', step p o = Ok p' /\ R p' (spec_step sp o).
+Proof.
+  intros p sp o HR Hwf. destruct o as [i st e nm d now|i st e nm now|i st et now|i now|i|i b|i t].
+  - (* AddInfo *) apply add_info_refines. exact HR.
+  - (* UpdateInfo *) simpl in Hwf. apply update_info_refines; assumption.
+  - (* Force *)
+    simpl. eexists. split; [reflexivity|].
+    destruct HR as [HR [Hf Hst]].
+    pose proof (arel_aget irel i _ _ (rc_infos _ _ _ HR)) as Hg.
+    unfold force_state.
+    destruct (aget i (p_infos p)) as [inf|]; destruct (aget i (sp_infos sp)) as [si|]; try contradiction.
+    + destruct Hg as [_ [_ [_ [Hev _]]]]. rewrite Hev.
+      destruct (Z.leb (s_evt si) et); simpl; (split; [exact HR|split; [auto|exact Hst]]).
+    + simpl. split; [exact HR|split; [reflexivity|exact Hst]].
+  - (* Invalidate *)
+    simpl. unfold invalidate.
+    destruct (zmem i (p_running p)) eqn:Ez.
+    + pose proof HR as [HRc _].
+      apply (rc_run _ _ _ HRc) in Ez. destruct Ez as [si [Hsi Hl]].
+      destruct (arel_aget_r irel i _ _ si (rc_infos _ _ _ HRc) Hsi) as [inf [Einf Hq]].
+      rewrite Einf, Hsi, Hl.
+      destruct Hq as [_ [_ [_ [_ Hnm]]]]. rewrite Hnm.
+      apply update_info_refines; [exact HR|]. apply amem_aget. exists si. exact Hsi.
+    + exists p. split; [reflexivity|].
+      destruct (aget i (sp_infos sp)) as [si|] eqn:Hsi; [|exact HR].
+      destruct (s_listed si) eqn:Hl; [|exact HR].
+      exfalso. destruct HR as [HRc _].
+      assert (zmem i (p_running p) = true) by (apply (rc_run _ _ _ HRc); exists si; auto). congruence.
+  - (* Remove *)
+    simpl in Hwf. simpl. unfold remove_identifier.
+    pose proof HR as [HRc [Hf Hst]].
+    apply amem_aget in Hwf. destruct Hwf as [si Hsi].
+    destruct (arel_aget_r irel i _ _ si (rc_infos _ _ _ HRc) Hsi) as [inf [Einf _]].
+    assert (Hm : amem i (p_infos p) = true) by (apply amem_aget; exists inf; exact Einf).
+    rewrite Hm.
+    pose proof (Rcore_adel _ _ _ i HRc) as HR'.
+    destruct (adel i (p_infos p)) as [|kv rest] eqn:Ed.
+    + eexists. split; [reflexivity|]. split; [|split].
+      * simpl. exact HR'.
+      * exact Hf.
+      * assert (Hnil : adel i (sp_infos sp) = []).
+        { pose proof (rc_infos _ _ _ HR') as Hrel. inversion Hrel. reflexivity. }
+        intros s oe H. unfold spec_step in H. rewrite spec_state_eq in H. cbn [sp_infos] in H.
+        rewrite Hnil in H. simpl in H. discriminate.
+    + rewrite update_status_synth. cbn [p_infos p_running p_state p_forced p_expected_exit].
+      assert (Hnr : new_run (zdiscard i (p_running p)) (p_state p) i STOPPED = zdiscard i (p_running p)).
+      { unfold new_run. rewrite (is_stopped_spec STOPPED). simpl. apply zdiscard_idem. }
+      rewrite Hnr.
+      destruct (synth_refines _ _ _ (p_forced p) (p_expected_exit p) (sp_forced sp) HR')
+        as [p' [Ep [Ei [Er [Ef Hag]]]]]; [discriminate|].
+      exists p'. split; [exact Ep|]. split; [|split].
+      * rewrite Ei, Er. exact HR'.
+      * rewrite Ef. exact Hf.
+      * exact Hag.
+  - (* Disable *)
+    simpl. destruct HR as [HR [Hf Hst]].
+    destruct (aget i (p_infos p)) as [inf|] eqn:Einf; (eexists; split; [reflexivity|]);
+      [|split; [exact HR|split; [exact Hf|exact Hst]]].
+    destruct (arel_aget_l irel i _ _ inf (rc_infos _ _ _ HR) Einf) as [si [Hsi Hq]].
+    split; [|split; [exact Hf|exact Hst]].
+    simpl. rewrite <- (aset_aget_id i si (sp_infos sp) Hsi).
+    apply (Rcore_aset _ (p_running p)); [exact HR|exact Hq| | |].
+    + pose proof (rc_listed _ _ _ HR) as HF. rewrite Forall_forall in HF.
+      apply (HF (i, si)). apply aget_In. exact Hsi.
+    + apply (rc_run_nodup _ _ _ HR).
+    + intros j. destruct (Z.eq_dec j i) as [E|E]; [|intuition].
+      subst j. rewrite <- zmem_In, (rc_run _ _ _ HR i). unfold listed_in. rewrite Hsi. split.
+      * intros [si' [E H]]. inversion E; subst. left. auto.
+      * intros [[_ H]|[H _]]; [exists si; auto|contradiction].
+  - (* TickTimes *)
+    simpl. destruct HR as [HR [Hf Hst]].
+    pose proof (arel_aget irel i _ _ (rc_infos _ _ _ HR)) as Hg.
+    destruct (aget i (p_infos p)) as [inf|] eqn:Einf; destruct (aget i (sp_infos sp)) as [si|] eqn:Hsi;
+      try contradiction; (eexists; split; [reflexivity|]);
+      [|split; [exact HR|split; [exact Hf|exact Hst]]].
+    split; [|split; [exact Hf|]].
+    + simpl. apply (Rcore_aset _ (p_running p)); [exact HR| | | |].
+      * unfold irel in *. simpl. tauto.
+      * pose proof (rc_listed _ _ _ HR) as HF. rewrite Forall_forall in HF.
+        apply (HF (i, si)). apply aget_In. exact Hsi.
+      * apply (rc_run_nodup _ _ _ HR).
+      * intros j. cbn [s_listed]. destruct (Z.eq_dec j i) as [E|E]; [|intuition].
+        subst j. rewrite <- zmem_In, (rc_run _ _ _ HR i). unfold listed_in. rewrite Hsi. split.
+        -- intros [si' [E H]]. inversion E; subst. left. auto.
+        -- intros [[_ H]|[H _]]; [exists si; auto|contradiction].
+    + intros s oe H. apply Hst.
+      rewrite <- H. destruct sp as [sinfos sfo]. simpl. simpl in Hsi.
+      apply spec_state_srel.
+      rewrite <- (aset_aget_id i si sinfos Hsi) at 1.
+      apply arel_aset; [apply arel_srel_refl|]. unfold srel. simpl. auto.
+Qed.
+
+(* ====================================================================== *)
+(* 4. the observation of a related state is accepted by the spec            *)
+(* ====================================================================== *)
+Lemma R_length : forall p sp, R p sp -> length (p_running p) = length (spec_running sp).
+Proof.
+  intros p sp [HR _]. rewrite spec_running_eq. unfold akeys. rewrite map_length.
+  apply (Rcore_length _ _ _ HR).
+Qed.
+
+Lemma R_accepts : forall p sp, R p sp -> spec_accepts sp (OOk (observe p)) = true.
+Proof.
+  intros p sp HR. pose proof (R_length p sp HR) as Hlen. destruct HR as [HR [Hf Hst]].
+  pose proof (Rcore_run_In _ _ _ HR) as Hin. rewrite <- spec_running_eq in Hin.
+  unfold spec_accepts, observe.
+  apply andb_true_iff; split; [apply andb_true_iff; split; [apply andb_true_iff; split;
+    [apply andb_true_iff; split|]|]|].
+  - unfold zset_eqb. apply andb_true_iff; split; apply forallb_forall; intros x Hx; apply zmem_In.
+    + apply Hin. apply zsort_In. exact Hx.
+    + apply zsort_In. apply Hin. exact Hx.
+  - apply Nat.eqb_eq. rewrite zsort_length. exact Hlen.
+  - rewrite <- Hlen. unfold conflicting. destruct (p_running p) as [|a [|b r]]; reflexivity.
+  - destruct (spec_state sp) as [[s oe]|] eqn:Es; [|reflexivity].
+    destruct (Hst s oe Es) as [E1 E2].
+    apply andb_true_iff; split; [apply andb_true_iff; split|].
+    + rewrite E1. apply Z.eqb_refl.
+    + unfold displayed. rewrite Hf, E1. apply Z.eqb_refl.
+    + destruct oe as [e|]; [|reflexivity]. rewrite (E2 e eq_refl). apply Bool.eqb_reflx.
+  - rewrite Hf. apply Bool.eqb_reflx.
+Qed.
+
+(* ====================================================================== *)
+(* 5. whole histories                                                       *)
+(* ====================================================================== *)
+Lemma refines_spec_gen : forall ops p sp, R p sp -> spec_violated sp ops (run p ops) = false.
+Proof.
+  intros ops. induction ops as [|o r IH]; intros p sp HR; simpl.
+  - reflexivity.
+  - destruct (wf_op sp o) eqn:Hwf.
+    + destruct (step_refines p sp o HR Hwf) as [p' [Ep HR']]. rewrite Ep.
+      rewrite (R_accepts p' _ HR'). apply IH. exact HR'.
+    + destruct (step p o); reflexivity.
+Qed.
+
+Lemma refines_spec : forall ops, spec_violated spec_init ops (run proc_init ops) = false.
+Proof. intros ops. apply refines_spec_gen. exact R_init. Qed.
+
+Fixpoint wf_history (sp : spec) (ops : list op) : bool :=
+  match ops with
+  | [] => true
+  | o :: r => wf_op sp o && wf_history (spec_step sp o) r
+  end.
+
+Fixpoint run_state (p : proc) (ops : list op) : result proc :=
+  match ops with
+  | [] => Ok p
+  | o :: r => bind (step p o) (fun p' => run_state p' r)
+  end.
+
+Lemma wf_history_no_crash_gen : forall ops p sp, R p sp -> wf_history sp ops = true ->
+  (forall o, In o (run p ops) -> exists x, o = OOk x) /\ length (run p ops) = length ops.
+Proof.
+  intros ops. induction ops as [|o r IH]; intros p sp HR Hwf; simpl.
+  - split; [intros o []|reflexivity].
+  - simpl in Hwf. apply andb_true_iff in Hwf. destruct Hwf as [Hwf Hr].
+    destruct (step_refines p sp o HR Hwf) as [p' [Ep HR']]. rewrite Ep.
+    destruct (IH p' _ HR' Hr) as [IH1 IH2]. split.
+    + intros ob [E|Hob]; [exists (observe p'); auto|apply IH1; exact Hob].
+    + simpl. rewrite IH2. reflexivity.
+Qed.
+
+Lemma wf_history_no_crash : forall ops, wf_history spec_init ops = true ->
+  (forall o, In o (run proc_init ops) -> exists x, o = OOk x)
+  /\ length (run proc_init ops) = length ops.
+Proof. intros ops H. apply (wf_history_no_crash_gen ops proc_init spec_init R_init H). Qed.
+
+Lemma reachable_R_gen : forall ops p sp, R p sp -> wf_history sp ops = true ->
+  exists p', run_state p ops = Ok p' /\ R p' (fold_left spec_step ops sp).
+Proof.
+  intros ops. induction ops as [|o r IH]; intros p sp HR Hwf; simpl.
+  - exists p. split; [reflexivity|exact HR].
+  - simpl in Hwf. apply andb_true_iff in Hwf. destruct Hwf as [Hwf Hr].
+    destruct (step_refines p sp o HR Hwf) as [p' [Ep HR']]. rewrite Ep. simpl.
+    apply IH; assumption.
+Qed.
+
+Lemma reachable_R : forall ops, wf_history spec_init ops = true ->
+  exists p, run_state proc_init ops = Ok p /\ R p (fold_left spec_step ops spec_init).
+Proof. intros ops H. apply (reachable_R_gen ops proc_init spec_init R_init H). Qed.
+
+(* ====================================================================== *)
+(* 6. loss of an instance (invalidate_identifier)                           *)
+(* ====================================================================== *)
+Lemma update_status_frame : forall p i st p', update_status p i st = Ok p' ->
+  p_infos p' = p_infos p /\ p_running p' = new_run (p_running p) (p_state p) i st /\ p_forced p' = p_forced p.
+Proof. intros p i st p' H. rewrite update_status_synth in H. apply synth_frame in H. exact H. Qed.
+
+Lemma invalidate_inv : forall p j now p', zmem j (p_running p) = true -> invalidate p j now = Ok p' ->
+  exists inf', i_state inf' = FATAL /\ p_infos p' = aset j inf' (p_infos p)
+               /\ p_running p' = zdiscard j (p_running p).
+Proof.
+  intros p j now p' Hz H. unfold invalidate in H. rewrite Hz in H.
+  destruct (aget j (p_infos p)) as [inf|] eqn:E; [|discriminate].
+  unfold update_info in H. rewrite E in H. rewrite reset_set_eq in H.
+  apply update_status_frame in H. cbn [p_infos p_running p_state p_forced] in H.
+  destruct H as [H1 [H2 _]]. eexists. split; [|split; [exact H1|]].
+  - reflexivity.
+  - rewrite H2. unfold new_run. rewrite (is_stopped_spec FATAL). reflexivity.
+Qed.
+
+Lemma loss_frame : forall p j now p', invalidate p j now = Ok p' ->
+  forall i, i <> j -> aget i (p_infos p') = aget i (p_infos p).
+Proof.
+  intros p j now p' H i Hij. destruct (zmem j (p_running p)) eqn:Hz.
+  - destruct (invalidate_inv p j now p' Hz H) as [inf' [_ [Hi _]]]. rewrite Hi.
+    apply aget_aset_other. exact Hij.
+  - unfold invalidate in H. rewrite Hz in H. inversion H; subst. reflexivity.
+Qed.
+
+(* no hypothesis beyond membership is needed: zdiscard removes every occurrence *)
+Lemma loss_makes_fatal : forall p j now p', zmem j (p_running p) = true -> invalidate p j now = Ok p' ->
+  (exists inf, aget j (p_infos p') = Some inf /\ i_state inf = FATAL) /\ zmem j (p_running p') = false.
+Proof.
+  intros p j now p' Hz H. destruct (invalidate_inv p j now p' Hz H) as [inf' [Hs [Hi Hr]]]. split.
+  - exists inf'. split; [rewrite Hi; apply aget_aset_same|exact Hs].
+  - rewrite Hr. apply zmem_false. intros HI. apply In_zdiscard in HI. destruct HI as [HI _]. apply HI. reflexivity.
+Qed.
+
+(* ====================================================================== *)
+(* 7. forced state                                                          *)
+(* ====================================================================== *)
+Lemma force_frame : forall p i st et, let p' := fst (force_state p i st et) in
+  p_infos p' = p_infos p /\ p_running p' = p_running p /\ p_state p' = p_state p.
+Proof.
+  intros p i st et. unfold force_state.
+  destruct (match aget i (p_infos p) with Some inf => Z.leb (i_event_time inf) et | None => true end);
+    simpl; auto.
+Qed.
+
+Lemma force_dismissed_iff : forall p i st et,
+  snd (force_state p i st et) = false <-> exists inf, aget i (p_infos p) = Some inf /\ et < i_event_time inf.
+Proof.
+  intros p i st et. unfold force_state. destruct (aget i (p_infos p)) as [inf|].
+  - destruct (Z.leb_spec (i_event_time inf) et) as [L|L]; simpl; split.
+    + discriminate.
+    + intros [inf' [E H]]. inversion E; subst. lia.
+    + intros _. exists inf. auto.
+    + reflexivity.
+  - simpl. split; [discriminate|]. intros [inf [E _]]. discriminate.
+Qed.
+
+(* ====================================================================== *)
+(* 8. conflicts, running ⊆ known                                            *)
+(* ====================================================================== *)
+Lemma conflict_iff : forall p sp, R p sp -> (conflicting p = true <-> (2 <= length (spec_running sp))%nat).
+Proof.
+  intros p sp HR. rewrite <- (R_length p sp HR). unfold conflicting.
+  destruct (p_running p) as [|a [|b r]]; simpl; split; intros H; try discriminate; try lia; reflexivity.
+Qed.
+
+Lemma ps_inv_running_subset : forall p sp, R p sp ->
+  forall i, zmem i (p_running p) = true -> amem i (p_infos p) = true.
+Proof.
+  intros p sp [HR _] i Hz. apply (rc_run _ _ _ HR) in Hz. destruct Hz as [si [Hsi _]].
+  destruct (arel_aget_r irel i _ _ si (rc_infos _ _ _ HR) Hsi) as [inf [Einf _]].
+  apply amem_aget. exists inf. exact Einf.
+Qed.
+
+(* ====================================================================== *)
+(* 9. a concrete history: two instances, a conflict, a loss, a forced state *)
+(* ====================================================================== *)
+Definition demo_history : list op :=
+  [ AddInfo 1 STOPPED true 100 false 1000;
+    AddInfo 2 STOPPED true 101 false 1001;
+    UpdateInfo 1 STARTING true 110 1010;
+    UpdateInfo 1 RUNNING true 120 1020;
+    UpdateInfo 2 STARTING true 121 1021;      (* conflict: 1 RUNNING, 2 STARTING *)
+    Force 1 FATAL 125 1025;                   (* forced state accepted *)
+    Force 1 STOPPED 50 1026;                  (* dismissed: older than the last event of 1 *)
+    TickTimes 1 130;
+    Invalidate 1 1030;                        (* instance 1 lost: FATAL, conflict solved, forced state reset *)
+    Disable 2 true;
+    UpdateInfo 2 STOPPING true 140 1040;
+    UpdateInfo 2 EXITED false 150 1050;
+    Remove 1;
+    Remove 2 ].
+
+Example demo_wf : wf_history spec_init demo_history = true.
+Proof. vm_compute. reflexivity. Qed.
+
+Example demo_all_ok :
+  forallb (fun o => match o with OOk _ => true | OCrash _ => false end) (run proc_init demo_history) = true
+  /\ length (run proc_init demo_history) = 14%nat.
+Proof. vm_compute. split; reflexivity. Qed.
+
+(* the conflict is visible after the 5th operation, and solved by the loss of instance 1 *)
+Example demo_conflict :
+  map (fun o => match o with OOk (r, c, s, d, _, f, _) => Some (r, c, s, d, f) | OCrash _ => None end)
+      (run proc_init demo_history)
+  = [ Some ([], false, 0, 0, false);
+      Some ([], false, 0, 0, false);
+      Some ([1], false, 10, 10, false);
+      Some ([1], false, 20, 20, false);
+      Some ([1; 2], true, 20, 20, false);
+      Some ([1; 2], true, 20, 200, true);
+      Some ([1; 2], true, 20, 200, true);
+      Some ([1; 2], true, 20, 200, true);
+      Some ([2], false, 10, 10, false);
+      Some ([2], false, 10, 10, false);
+      Some ([2], false, 40, 40, false);
+      Some ([], false, 100, 100, false);
+      Some ([], false, 100, 100, false);
+      Some ([], false, 100, 100, false) ].
+Proof. vm_compute. reflexivity. Qed.
+
+Example demo_refines : spec_violated spec_init demo_history (run proc_init demo_history) = false.
+Proof. vm_compute. reflexivity. Qed.
+
+(* hypotheses of the loss / force lemmas are satisfiable on the state reached after the conflict *)
+Definition demo_conflict_state : proc :=
+  match run_state proc_init (firstn 5 demo_history) with Ok p => p | Crash _ => proc_init end.
+
+Example demo_loss_hyp :
+  zmem 1 (p_running demo_conflict_state) = true
+  /\ exists p', invalidate demo_conflict_state 1 1030 = Ok p'.
+Proof. split; [vm_compute; reflexivity|]. eexists. vm_compute. reflexivity. Qed.
+
+Example demo_force_dismissed : snd (force_state demo_conflict_state 1 STOPPED 50) = false.
+Proof. vm_compute. reflexivity. Qed.
+
+Example demo_conflicting : conflicting demo_conflict_state = true.
+Proof. vm_compute. reflexivity. Qed.
+
+(* The variant of (e) "sp_infos sp = [] -> is_stopped (p_state p) = true" suggested for R does NOT hold:
+   removing the last instance keeps the previous synthesized state (remove_identifier only calls
+   update_status when info_map is non-empty). *)
+Example removed_last_keeps_state :
+  match run_state proc_init [AddInfo 1 RUNNING true 10 false 100; Remove 1] with
+  | Ok p => p_infos p = [] /\ p_running p = [] /\ p_state p = RUNNING /\ is_stopped (p_state p) = false
+  | Crash _ => False
+  end.
+Proof. vm_compute. repeat split; reflexivity. Qed.
+
+(* both reflected tables at once (for props/C11.v) *)
+Lemma tables_spec :
+  (forall s, is_running s = is_running_like s) /\ (forall s, is_stopped s = is_stopped_like s).
+Proof. split; [exact is_running_spec|exact is_stopped_spec]. Qed.
